@@ -8,7 +8,8 @@ import GomlVerif.Gen.GoCompTables
 `GoCompile.goFilePre env file n` is everything `go_file` builds before it runs dead-code
 elimination (exact tie: `gv gocomp` / `gomlmodel gocomp`, composed with `Dce.eliminateDeadVars`).
 `progOf file` is the `Sem` program of the ANF file (`AFn.toFn` erases the annotations, as the
-shared dump does).
+shared dump does); the theorems hold for every `P : Prog` with those functions (`P.fns = file.map AFn.toFn`,
+any dispatch table `impls`: the fragment never consults it).
 
 * **T1 `compile_preserves`** — forward simulation: for every function of a set `G` of functions of
   the file that passes the decidable check `closedOK` (`Model/GoFrag.lean`: stage (a) — scalars,
@@ -58,18 +59,18 @@ theorem tables_are_modelled :
     with all its callees in `G` or builtins).  `args` / `gargs` are related scalar arguments of the
     parameter types, `w` / `gw` worlds with the same stdout and extern events. -/
 theorem compile_preserves (env : Env) (file : AFile) (n0 : Nat) (G : List String)
-    (hG : closedOK env file n0 G = true) (f : AFn) (hf : f ∈ file) (hfG : f.name ∈ G)
+    (hG : closedOK env file n0 G = true) (P : Prog) (hP : P.fns = file.map AFn.toFn) (f : AFn) (hf : f ∈ file) (hfG : f.name ∈ G)
     (args : List Val) (gargs : List GVal) (hargs : ArgsRel args gargs (f.params.map (·.2)))
     (w : World) (gw : GWorld) (hw : WRel w gw) (fuel : Nat) :
-    match Sem.apply fuel (progOf file) w (.fn f.name) args with
+    match Sem.apply fuel P w (.fn f.name) args with
     | .ok v w' => ∃ m gv gw', callG m (goFilePreSt env file n0).1 gw (.func (fnName f.name)) gargs = .ok gv gw' ∧
         toG v = some gv ∧ WRel w' gw'
     | .fail (.panic k) w' => ∃ m gw', callG m (goFilePreSt env file n0).1 gw (.func (fnName f.name)) gargs =
         .fail (.panic k) gw' ∧ WRel w' gw'
     | _ => True := by
-  have h := (sim_all (link_of_closed hG) fuel).u f hf hfG args gargs w gw hargs hw
+  have h := (sim_all (link_of_closed hG hP) fuel).u f hf hfG args gargs w gw hargs hw
   revert h
-  cases Sem.apply fuel (progOf file) w (.fn f.name) args with
+  cases Sem.apply fuel P w (.fn f.name) args with
   | ok v w' =>
     rintro ⟨gv, gw', hc, h3, _, h5⟩
     obtain ⟨m, hm⟩ := hc.exists
@@ -91,17 +92,17 @@ instance (env : Env) (file : AFile) (n0 : Nat) (f : AFn) : Decidable (InGoFragme
 
 /-- **T1 for `InGoFragment`** (`G` = the set `goodFns` computes, its closure re-checked) -/
 theorem compile_preserves_fragment (env : Env) (file : AFile) (n0 : Nat) (f : AFn) (hf : f ∈ file)
-    (hfrag : InGoFragment env file n0 f)
+    (hfrag : InGoFragment env file n0 f) (P : Prog) (hP : P.fns = file.map AFn.toFn)
     (args : List Val) (gargs : List GVal) (hargs : ArgsRel args gargs (f.params.map (·.2)))
     (w : World) (gw : GWorld) (hw : WRel w gw) (fuel : Nat) :
-    match Sem.apply fuel (progOf file) w (.fn f.name) args with
+    match Sem.apply fuel P w (.fn f.name) args with
     | .ok v w' => ∃ m gv gw', callG m (goFilePreSt env file n0).1 gw (.func (fnName f.name)) gargs = .ok gv gw' ∧
         toG v = some gv ∧ WRel w' gw'
     | .fail (.panic k) w' => ∃ m gw', callG m (goFilePreSt env file n0).1 gw (.func (fnName f.name)) gargs =
         .fail (.panic k) gw' ∧ WRel w' gw'
     | _ => True := by
   simp only [InGoFragment, inGoFragment, Bool.and_eq_true] at hfrag
-  exact compile_preserves env file n0 _ hfrag.1 f hf (by simpa using hfrag.2) args gargs hargs w gw hw fuel
+  exact compile_preserves env file n0 _ hfrag.1 P hP f hf (by simpa using hfrag.2) args gargs hargs w gw hw fuel
 
 /-- **T1, whole program** (the shape `Props/C01pipe.lean` composes with): when the entry `main`
     (no parameters) is in the fragment, every definite `Sem.run` of the ANF program is the `runGo`
@@ -109,11 +110,11 @@ theorem compile_preserves_fragment (env : Env) (file : AFile) (n0 : Nat) (f : AF
     extern events. -/
 theorem compile_preserves_run (env : Env) (file : AFile) (n0 : Nat) (G : List String)
     (hG : closedOK env file n0 G = true) (f : AFn) (hf : f ∈ file) (hname : f.name = "main") (hps : f.params = [])
-    (hfG : "main" ∈ G) (fuel : Nat) (eager : Bool)
-    (hdef : (Sem.run fuel (progOf file) "main" eager).status = "ok" ∨
-      ∃ k, (Sem.run fuel (progOf file) "main" eager).status = "panic:" ++ k) :
-    ∃ m, runGo m (goFilePreSt env file n0).1 "main" eager = Sem.run fuel (progOf file) "main" eager := by
-  have hl := link_of_closed hG
+    (hfG : "main" ∈ G) (P : Prog) (hP : P.fns = file.map AFn.toFn) (fuel : Nat) (eager : Bool)
+    (hdef : (Sem.run fuel P "main" eager).status = "ok" ∨
+      ∃ k, (Sem.run fuel P "main" eager).status = "panic:" ++ k) :
+    ∃ m, runGo m (goFilePreSt env file n0).1 "main" eager = Sem.run fuel P "main" eager := by
+  have hl := link_of_closed hG hP
   -- the Go `main` wrapper
   have hmainMem : mainFn ∈ (goFilePreSt env file n0).1.funcs := by
     rw [funcs_goFilePre]; simp
@@ -142,7 +143,7 @@ theorem compile_preserves_run (env : Env) (file : AFile) (n0 : Nat) (G : List St
       exact call_func_env hmainFind rfl (block_cons_fail (stmt_expr_fail hcall)) rfl
   unfold Sem.run at hdef ⊢
   unfold runGo
-  generalize hap : Sem.apply fuel (progOf file) { eager := eager } (.fn "main") [] = r at hsim hdef ⊢
+  generalize hap : Sem.apply fuel P { eager := eager } (.fn "main") [] = r at hsim hdef ⊢
   cases r with
   | ok v w' =>
     obtain ⟨gv, gw', hc, _, _, h5⟩ := hsim
@@ -184,11 +185,11 @@ structure Ready (env : Env) (file : AFile) (G : List String) (Bad : List String)
     an ANF expression of the fragment reproduce every definite `Sem.eval` run of it: same world, and
     in assign mode the target variable holds the corresponding value afterwards (`Concl`). -/
 theorem compile_stmts_preserve (env : Env) (file : AFile) (n0 : Nat) (G : List String)
-    (hG : closedOK env file n0 G = true) (Bad : List String) (m : Mode) (st : St) (e : AExpr) (Γ : Ctx) (ρ : Sem.Env)
+    (hG : closedOK env file n0 G = true) (P : Prog) (hP : P.fns = file.map AFn.toFn) (Bad : List String) (m : Mode) (st : St) (e : AExpr) (Γ : Ctx) (ρ : Sem.Env)
     (w : World) (gρ : GEnv) (gw : GWorld) (h : Ready env file G Bad m st e Γ ρ w gρ gw) (fuel : Nat) :
     Concl (goFilePreSt env file n0).1 (compileA env m st e).1 m gρ gw (aTy e)
-      (Sem.eval fuel (progOf file) ρ w e.toExpr) :=
-  (sim_all (link_of_closed hG) fuel).a m st e Γ ρ w gρ gw Bad h.frag h.envs h.worlds h.names h.target h.blank h.callees
+      (Sem.eval fuel P ρ w e.toExpr) :=
+  (sim_all (link_of_closed hG hP) fuel).a m st e Γ ρ w gρ gw Bad h.frag h.envs h.worlds h.names h.target h.blank h.callees
 
 /-- **T3 `compile_order`**: the Go statements of `let x = v in body` are those of `v`
     (`letPrefix`, which does not depend on `body`) followed by those of `body`; the first part runs
@@ -197,12 +198,12 @@ theorem compile_stmts_preserve (env : Env) (file : AFile) (n0 : Nat) (G : List S
     follows.  So successive `let`s perform their effects in ANF order and a failure cuts off
     everything after it. -/
 theorem compile_order (env : Env) (file : AFile) (n0 : Nat) (G : List String)
-    (hG : closedOK env file n0 G = true) (Bad : List String) (m : Mode) (st : St) (x : String) (v : CExpr)
+    (hG : closedOK env file n0 G = true) (P : Prog) (hP : P.fns = file.map AFn.toFn) (Bad : List String) (m : Mode) (st : St) (x : String) (v : CExpr)
     (body : AExpr) (ty : Ty) (Γ : Ctx) (ρ : Sem.Env) (w : World) (gρ : GEnv) (gw : GWorld)
     (h : Ready env file G Bad m st (.letE x v body ty) Γ ρ w gρ gw) (fuel : Nat) :
     (compileA env m st (.letE x v body ty)).1 =
         letPrefix env st x v ++ (compileA env m (letBodySt env st x v) body).1 ∧
-    (match Sem.eval fuel (progOf file) ρ w v.toExpr with
+    (match Sem.eval fuel P ρ w v.toExpr with
      | .ok vv w1 => ∃ env1 gv gw1,
          BlockS (goFilePreSt env file n0).1 gρ gw (letPrefix env st x v) (.ok (env1, .normal) gw1) ∧ WRel w1 gw1 ∧
          lookupG env1 (vn x) = some gv ∧ toG vv = some gv
@@ -210,7 +211,7 @@ theorem compile_order (env : Env) (file : AFile) (n0 : Nat) (G : List String)
          BlockS (goFilePreSt env file n0).1 gρ gw (letPrefix env st x v ++ rest) (.fail (.panic k) gw1) ∧ WRel w1 gw1
      | _ => True) :=
   ⟨compileA_let env m st x v body ty,
-   let_order (sim_all (link_of_closed hG) fuel).v (sim_all (link_of_closed hG) fuel).c m st x v body ty Γ ρ w gρ gw Bad
+   let_order (sim_all (link_of_closed hG hP) fuel).v (sim_all (link_of_closed hG hP) fuel).c m st x v body ty Γ ρ w gρ gw Bad
      h.frag h.envs h.worlds h.names h.blank h.callees⟩
 
 /-- operands keep their ANF order in the emitted expression (`Go.Sem` evaluates `l` before `r`, and
@@ -234,7 +235,7 @@ theorem compile_wellformed (env : Env) (file : AFile) (n0 : Nat) (G : List Strin
       Goml.Dce.shapeOK gf.body = true ∧
       Goml.Dce.scopeErrs (Goml.Dce.localsOf gf) (gf.params.map (·.1)) (Goml.Dce.dceBody gf.body) = [] ∧
       Goml.Dce.unusedStmts (Goml.Dce.dceBody gf.body) = [] := by
-  obtain ⟨st, hfind, hlocal⟩ := (link_of_closed hG).fnGo f hf hfG
+  obtain ⟨st, hfind, hlocal⟩ := (link_of_closed hG (P := progOf file) rfl).fnGo f hf hfG
   have hclean := fn_clean hlocal
   exact ⟨_, hfind, hclean.1, hclean.2, (Goml.Dce.dce_fn_scope_sound _ hclean.1 hclean.2).1,
     (Goml.Dce.dce_fn_scope_sound _ hclean.1 hclean.2).2⟩
